@@ -259,6 +259,8 @@ class ReactionQueryReader(object):
         if len(tree) > 1:
             assert tree[1][0] == 'AtomSuffix'
             radical, charge, valence = self.ReadAtomSuffix(tree[1][1:])
+        else:
+            radical, charge, valence = 0, 0, 0
         return symbol, radical, charge, valence
 
     def ReadAtomLabel(self, tree, reactionquery):
